@@ -323,3 +323,7 @@ def run(chk):
     from .c10 import check_layout_sim
     chk.rule('C10.L', 'shared with C10: every respelling of a block keyword line is lowered to the same jumps and labels (parse_script evaluated on layout variants, E6p)')
     chk.guard('C10.L', check_layout_sim, chk)
+    # "... can never cause an unknown, unused or redefined label lint warning": the linter evaluated on lowered structured code and on the shipped includes (shared with C18)
+    from .c18 import check_lint_sim
+    chk.rule('C18.R', 'shared with C18: lint_script (evaluated, E6n) reports no label warning for structured code lowered by parse_script, in one or several functions')
+    chk.guard('C18.R', check_lint_sim, chk, 'C18.R', ('structured', 'include', 'raise', 'spurious', 'state'))
